@@ -12,6 +12,7 @@ import (
 	"fmt"
 	"io"
 	"net/http/httptest"
+	"regexp"
 	"runtime"
 	"strings"
 	"sync"
@@ -157,17 +158,55 @@ var hangSeen atomic.Bool
 
 const hangAfter = 90 * time.Second
 
+// A deadlock is told from slowness by what the goroutines are doing when the time is up: in a deadlock
+// every goroutine (but the watchdog's own) is parked; while one of them is running or runnable the case is
+// merely slow - a loaded machine - and gets more time, up to slowAfter, after which it is given up as
+// inconclusive (never as a violation: a time budget is not an oracle).
+const slowAfter = 15 * time.Minute
+
+var goroutineHeader = regexp.MustCompile(`(?m)^goroutine \d+ \[([a-zA-Z .]+)`)
+
+func busy(dump string) bool {
+	n := 0
+	for _, m := range goroutineHeader.FindAllStringSubmatch(dump, -1) {
+		if st := m[1]; st == "running" || st == "runnable" || st == "syscall" || st == "sleep" {
+			n++
+		}
+	}
+	return n > 1 // the goroutine that takes the dump is running
+}
+
 func watchdog(f func()) (hung bool, dump string) {
 	done := make(chan struct{})
 	go func() { defer close(done); f() }()
-	select {
-	case <-done:
-		return false, ""
-	case <-time.After(hangAfter):
-		buf := make([]byte, 1<<20)
-		n := runtime.Stack(buf, true)
+	start := time.Now()
+	for {
+		select {
+		case <-done:
+			return false, ""
+		case <-time.After(hangAfter):
+		}
+		buf := make([]byte, 1<<22)
+		dump = string(buf[:runtime.Stack(buf, true)])
+		if busy(dump) && time.Since(start) < slowAfter {
+			continue
+		}
+		if busy(dump) {
+			dump = "SLOW\n" + dump
+		} else {
+			// parked all of them: look once more a little later, to be sure
+			select {
+			case <-done:
+				return false, ""
+			case <-time.After(3 * time.Second):
+			}
+			dump = string(buf[:runtime.Stack(buf, true)])
+			if busy(dump) && time.Since(start) < slowAfter {
+				continue
+			}
+		}
 		hangSeen.Store(true)
-		return true, string(buf[:n])
+		return true, dump
 	}
 }
 
@@ -180,7 +219,11 @@ func runWorkload(wl Workload, v *vt.V) {
 		var err error
 		hung, dump := watchdog(func() { events, err = execute(wl) })
 		if hung {
-			v.Failf("hang", "%d goroutines: the workload did not finish within %v (deadlock?); goroutines:\n%.6000s", len(wl.Threads), hangAfter, dump)
+			if strings.HasPrefix(dump, "SLOW\n") {
+				v.Failf("harness", "%d goroutines: the workload was still running after %v (a loaded machine?): given up", len(wl.Threads), slowAfter)
+				return
+			}
+			v.Failf("hang", "%d goroutines: the workload did not finish within %v and every goroutine is parked (deadlock); goroutines:\n%.6000s", len(wl.Threads), hangAfter, dump)
 			vt.SaveFailureNow(propWorkload, wl, v)
 			return
 		}
@@ -313,7 +356,11 @@ func runDirected(d Directed, v *vt.V) {
 	}
 	hung, dump := watchdog(func() { runDirected1(d, v) })
 	if hung {
-		v.Failf("hang", "family %s did not finish within %v (deadlock?); goroutines:\n%.6000s", d.Family, hangAfter, dump)
+		if strings.HasPrefix(dump, "SLOW\n") {
+			v.Failf("harness", "family %s was still running after %v (a loaded machine?): given up", d.Family, slowAfter)
+			return
+		}
+		v.Failf("hang", "family %s did not finish within %v and every goroutine is parked (deadlock); goroutines:\n%.6000s", d.Family, hangAfter, dump)
 		vt.SaveFailureNow(propDirected, d, v)
 	}
 }
@@ -659,7 +706,7 @@ func runDirected1(d Directed, v *vt.V) {
 		// immutable tags: a DeleteBlob of a layer nothing refers to yet, against the PushManifest of a
 		// tagged image that refers to it. In either order one of them is refused; a registry that holds
 		// many tagged manifests spends longer over the delete's walk
-		mem := ocimem.NewWithConfig(&ocimem.Config{ImmutableTags: true})
+		var mem *ocimem.Registry
 		const imageMT = "application/vnd.oci.image.manifest.v1+json"
 		pushBlob := func(content string) ociregistry.Descriptor {
 			desc := ociregistry.Descriptor{MediaType: "application/octet-stream", Digest: digest.FromString(content), Size: int64(len(content))}
@@ -672,18 +719,24 @@ func runDirected1(d Directed, v *vt.V) {
 			return []byte(fmt.Sprintf(`{"schemaVersion":2,"mediaType":%q,"config":{"mediaType":%q,"digest":%q,"size":%d},"layers":[{"mediaType":%q,"digest":%q,"size":%d}],"annotations":{"note":%q}}`,
 				imageMT, config.MediaType, config.Digest, config.Size, layer.MediaType, layer.Digest, layer.Size, note))
 		}
-		config, base := pushBlob("{}"), pushBlob("base layer")
 		old := 30
 		if d.Size > 4 {
 			old = 400
 		}
-		for i := 0; i < old; i++ {
-			if _, err := mem.PushManifest(ctx, "foo", fmt.Sprintf("old%d", i), image(config, base, fmt.Sprint("old", i)), imageMT); err != nil {
-				v.Failf("harness", "%v", err)
-				return
-			}
-		}
+		var config ociregistry.Descriptor
 		for i := 0; i < d.Iters*30/old; i++ {
+			if i%100 == 0 {
+				// a new registry now and then: every successful push adds a tagged manifest for the deletes to walk
+				mem = ocimem.NewWithConfig(&ocimem.Config{ImmutableTags: true})
+				var base ociregistry.Descriptor
+				config, base = pushBlob("{}"), pushBlob("base layer")
+				for j := 0; j < old; j++ {
+					if _, err := mem.PushManifest(ctx, "foo", fmt.Sprintf("old%d", j), image(config, base, fmt.Sprint("old", j)), imageMT); err != nil {
+						v.Failf("harness", "%v", err)
+						return
+					}
+				}
+			}
 			layer := pushBlob(fmt.Sprintf("layer %d", i))
 			tag := fmt.Sprintf("new%d", i)
 			man := image(config, layer, tag)
